@@ -115,6 +115,9 @@ def main():
                                                    ("I", 0x0C00000B), ("f", G.f32(0x20000000)), ("f", G.f32(0x0A0B0C0D)),
                                                    ("d", G.f64(0x2000000000000000)), ("d", G.f64(0x0920202020202020)), ("h", 0x0A00),
                                                    ("S", "\n lead"), ("S", " ")])]
+        # ... and String arrays (top level, inside a structure) with an element longer than the |S128 the DDS parser declares
+        corpus.append(("dataset", "ls0", (("base", "s0", "S", (2,), ("x" * 130 + "END", "ab")), ("base", "t", "i", (), (5,)))))
+        corpus.append(("dataset", "ls1", (("struct", "st", (("base", "m", "S", (2, 2), ("a", "b" * 128, "c" * 129, "")),)),)))
         while done < n and attempts < 20 * n:
             attempts += 1
             desc = corpus.pop(0) if corpus else G.gen_dataset(rng)
